@@ -227,6 +227,13 @@ def _modfunc(rng, g, dom, kind):
         k = rng.choice(["Set", "TreeSet", "Bucket", "BTree"])
         if fn == "multiunion" and rng.random() < 0.3:
             k = rng.choice(["list", "int"])
+        elif fn in ("union", "intersection", "difference") and \
+                rng.random() < 0.2:
+            # a plain Python iterable, unsorted and with duplicates (the
+            # functions sort a private copy)
+            ks = g.keylist(0, 7)
+            return [rng.choice(["list", "tuple", "gen"]), ks,
+                    [0 for _ in ks]]
         ks = sorted(set(g.keylist(0, 6)))
         return [k, ks, [g.val() for _ in ks]]
     if fn == "multiunion":
@@ -260,6 +267,10 @@ def _build_operand(spec, c, dom, impl):
         return dom.key(spec[1][0]) if spec[1] else dom.key(0)
     if k == "list":
         return [dom.key(x) for x in spec[1]]
+    if k == "tuple":
+        return tuple(dom.key(x) for x in spec[1])
+    if k == "gen":
+        return iter([dom.key(x) for x in spec[1]])
     if k == "range":
         lo, hi = domains.INT_RANGE[dom.kcode]
         base = [lo, 0, hi - 40000, (hi // 2) + 1][spec[1]]
